@@ -70,6 +70,14 @@ func (g *Gateway) Query(ctx context.Context, input *graphql.QueryInput, receiver
 
 	for _, field := range graphql.SelectedFields(querySelection) {
 		switch field.Name {
+		case "__typename":
+			// the name of the root type of the operation being answered
+			result[field.Alias] = typeNameQuery
+			if operation := input.QueryDocument.Operations[0]; operation.Operation == ast.Mutation {
+				result[field.Alias] = typeNameMutation
+			} else if operation.Operation == ast.Subscription {
+				result[field.Alias] = typeNameSubscription
+			}
 		case "__schema":
 			result[field.Alias] = g.introspectSchema(introspectionSchema, field.SelectionSet)
 		case "__type":
